@@ -24,12 +24,18 @@ structure WExt (w w' : World) : Prop where
   nU : w.nU ≤ w'.nU
   /-- an object never changes its kind: a placeholder stays a placeholder, a stream a stream -/
   real_old : ∀ s, s < w.nS → w'.real s = w.real s
+  /-- whether a port list of an existing unit is of fixed size, and that size, never change -/
+  fx_old : ∀ k u, u < w.nU → (w'.side k).fixed u = (w.side k).fixed u ∧
+    (w'.side k).size u = (w.side k).size u
 
-theorem WExt.refl (w : World) : WExt w w := ⟨id, Nat.le_refl _, Nat.le_refl _, fun _ _ => rfl⟩
+theorem WExt.refl (w : World) : WExt w w :=
+  ⟨id, Nat.le_refl _, Nat.le_refl _, fun _ _ => rfl, fun _ _ _ => ⟨rfl, rfl⟩⟩
 
 theorem WExt.trans {a b c : World} (h1 : WExt a b) (h2 : WExt b c) : WExt a c :=
   ⟨fun h => h1.pre (h2.pre h), Nat.le_trans h1.nS h2.nS, Nat.le_trans h1.nU h2.nU,
-   fun s hs => (h2.real_old s (Nat.lt_of_lt_of_le hs h1.nS)).trans (h1.real_old s hs)⟩
+   fun s hs => (h2.real_old s (Nat.lt_of_lt_of_le hs h1.nS)).trans (h1.real_old s hs),
+   fun k u hu => ⟨((h2.fx_old k u (Nat.lt_of_lt_of_le hu h1.nU)).1).trans (h1.fx_old k u hu).1,
+     ((h2.fx_old k u (Nat.lt_of_lt_of_le hu h1.nU)).2).trans (h1.fx_old k u hu).2⟩⟩
 
 structure WStep (A : Prop) (w w' : World) : Prop where
   ext : WExt w w'
@@ -61,12 +67,17 @@ theorem SInv.grow {nU nU' : Nat} {sd : Side} {n n' : Nat} {p p' : Bool}
 theorem put_good {A : Prop} {w : World} {k : Which} {sw' : SW} (h : Step w.nU A (w.get k) sw') :
     WStep A w (w.put k sw') := by
   have hnext : w.nS ≤ sw'.next := by have := h.ext.next; cases k <;> exact this
-  refine ⟨⟨fun hp => ?_, ?_, ?_, ?_⟩, fun hp hG hA => ?_⟩
+  refine ⟨⟨fun hp => ?_, ?_, ?_, ?_, ?_⟩, fun hp hG hA => ?_⟩
   · have := h.ext.pre (by cases k <;> exact hp)
     cases k <;> exact this
   · cases k <;> exact hnext
   · cases k <;> exact Nat.le_refl _
   · intro s _; cases k <;> rfl
+  · intro k' u _
+    have hf := h.ext.fixed
+    have hs := h.ext.size
+    cases k <;> cases k' <;> simp only [World.put, World.side, World.get] at hf hs ⊢ <;>
+      first | exact ⟨rfl, rfl⟩ | exact ⟨by rw [hf], by rw [hs]⟩ | simp [hf, hs]
   · have hI := h.inv (by cases k <;> exact hp) (hG.side k) hA
     cases k
     · exact ⟨hI.of_eq rfl rfl, hG.outs.grow hnext (Nat.le_refl _),
@@ -160,7 +171,7 @@ theorem items_map_some {l : List Nat} {n : Nat} (h : ∀ s ∈ l, s < n) :
 theorem newStream_wstep (w : World) : WStep True w w.newStream.1 := by
   refine ⟨⟨id, Nat.le_succ _, Nat.le_refl _, fun s hs => by
     have : s ≠ w.nS := by omega
-    simp [World.newStream, this]⟩, fun _ hG _ => ?_⟩
+    simp [World.newStream, this], fun k _ _ => by cases k <;> exact ⟨rfl, rfl⟩⟩, fun _ hG _ => ?_⟩
   refine ⟨hG.ins.grow (Nat.le_succ _) (Nat.le_refl _), hG.outs.grow (Nat.le_succ _) (Nat.le_refl _), ?_⟩
   intro s hs
   have h1 : w.nS + 1 ≤ s := hs
@@ -537,8 +548,22 @@ theorem streamPorts_wstep {w w' : World} {k : Which} {xs ss : List Nat}
     have := List.of_mem_zip hp
     exact ⟨hc _ this.2, resolvePorts_lt hG hps _ this.1⟩
 
+theorem resolvePorts_get {w : World} {k : Which} {xs : List Nat} {ps : List (Nat × Nat)}
+    (hG : GoodS w) (h : w.resolvePorts k xs = .ok ps) {i : Nat} {p : Nat × Nat} (hp : ps[i]? = some p) :
+    p.1 < w.nU := resolvePorts_lt hG h p (List.mem_of_getElem? hp)
+
+theorem streamPort_wstep {w w' : World} {k : Which} {xs : List Nat} {i s : Nat}
+    (h : w.streamPort k xs i s = .ok w') : WStepR (s < w.nS) w w' := by
+  unfold World.streamPort at h
+  obtain ⟨ps, hps, h⟩ := bind_ok.mp h
+  split at h
+  · cases h
+  · rename_i v j hp
+    exact (on_wstepR (fun _ => setStream_step) h).weaken
+      (fun hc hG => ⟨by simpa using hc, resolvePorts_get hG hps hp⟩)
+
 theorem setOwner_wstep (w : World) (f : Nat → Option Nat) : WStepR True w { w with owner := f } :=
-  ⟨⟨⟨id, Nat.le_refl _, Nat.le_refl _, fun _ _ => rfl⟩, fun _ hG _ =>
-    ⟨hG.ins.of_eq rfl rfl, hG.outs.of_eq rfl rfl, hG.nreal⟩⟩, rfl⟩
+  ⟨⟨⟨id, Nat.le_refl _, Nat.le_refl _, fun _ _ => rfl, fun k _ _ => by cases k <;> exact ⟨rfl, rfl⟩⟩,
+    fun _ hG _ => ⟨hG.ins.of_eq rfl rfl, hG.outs.of_eq rfl rfl, hG.nreal⟩⟩, rfl⟩
 
 end ThermoVerif.Network
